@@ -43,8 +43,8 @@ ShapeC(w) ==
 ShapeD(w) ==
   {<<S(SeqA, a.lm, a.oddc,
        <<I(b.lm, b.oddc, <<P(SelTag("US"), "US", dl, 1)>>),
-         I(b.lm, FALSE, <<P(SelTag("LO"), "LO", 3, 2),
-                          S(SeqB, b.lm, FALSE, <<I(a.lm, a.oddc, <<P(SelTag("OB"), "OB", dl, 4)>>)>>)>>),
+         I(b.lm, FALSE, <<S(SeqB, b.lm, FALSE, <<I(a.lm, a.oddc, <<P(SelTag("OB"), "OB", dl, 4)>>)>>),
+                          P(SelTag("LO"), "LO", 3, 2)>>),
          I("E", FALSE, <<>>)>>),
      S(SeqB, "E", FALSE, <<>>),
      Sent>> : a \in LMs(w), b \in LMs(w), dl \in SeqDLs}
